@@ -565,7 +565,7 @@ pub fn gen(a: &Args) -> String {
         let mut r = Rng::new(seed);
         let mut out = Out::default();
         out.buf.push_str("#rule one case = an access-control configuration (fabrics, entries, group tables, built through the real API) + generated node metadata (0..4 endpoints x 0..3 clusters x 0..4 attributes / 0..3 commands with declared and random access bits, timed-only / fabric-scoped marks, partially disabled by the feature map; 1 in 8 nodes has duplicate ids) + requests run through the real expand_read / expand_write / expand_invoke with real request TLVs: 1..4 paths (concrete, each wildcard shape, absent ids, repeats), requester in {PASE with/without fabric, CASE, Group, missing fabric}, timed flag, read filter; non-trivial = the case produced both items and statuses\n");
-        let n_cases: u64 = if thorough { 30000 } else { 2000 };
+        let n_cases: u64 = if thorough { 100000 } else { 10000 };
         for id in 1..=n_cases {
             let mut cr = r.fork();
             let nx = if thorough { cr.range(4, 24) } else { cr.range(4, 14) } as usize;
